@@ -12,3 +12,9 @@ Theorem c07_isolation : forall (D : Type) (master : D) (tr : list (event D)) (g 
   wf D [] [] tr ->
   renders_of D g (run_trace D master [] tr) = renders_of D g (run_trace D master [] (project D g tr)).
 Proof. exact isolation. Qed.
+
+(* the statements implementing the per-thread protocol the theorem is about are the ones of the current source (literal match by the translator on every run) *)
+From VGen Require Import Tables.
+From VProofs Require Import TieC07.
+Theorem c07_tie_thread_protocol : List.length src_thread_protocol = 6%nat.
+Proof. exact tie_thread_protocol. Qed.
